@@ -41,17 +41,70 @@ def sweep_scenarios(quick, seed):
                     continue
                 out.append({"ttl": ttl, "jump": jump, "later": 3 * ttl + 5 * TICK, "op": op, "sized": k % 2, "syncexec": (k // 2) % 2, "warm": 0,
                             "max": 4 + k % 5})
+    # the other order of the read race (ExpireRace.tla): the sweeper is parked at ev.beforeDelete - after the wheel tested the
+    # deadline, before the removal in the table - while the read stores the extended deadline
+    k = 0
+    for ttl in (3 * TICK, 10 * TICK, 70 * TICK):
+        for op in ("gate.get", "gate.getentry"):
+            for jump in (TICK + 7, 2 * TICK):
+                k += 1
+                if quick and k % 2 != seed % 2:
+                    continue
+                out.append({"ttl": ttl, "jump": jump, "later": 3 * ttl + 5 * TICK, "op": op, "sized": k % 2, "syncexec": (k // 2) % 2, "warm": 0,
+                            "max": 4 + k % 5})
     return out
 
 
-def read_race_half(prop, tier):
+def expire_race_cfg(readers, nreads, ttl, maxclock, nsweeps, sized, resurrect):
+    return ("SPECIFICATION Spec\nCONSTANTS\n Readers = {%s}\n NReads = %d\n TTL = %d\n MaxClock = %d\n NSweeps = %d\n Sized = %s\n Resurrect = %s\n"
+            "INVARIANTS Truthful Once Tracked Swept\nPROPERTIES Terminates\n" %
+            (", ".join(map(str, range(1, readers + 1))), nreads, ttl, maxclock, nsweeps, "TRUE" if sized else "FALSE", "TRUE" if resurrect else "FALSE"))
+
+
+def expire_race_models(work, tier):
+    """ExpireRace.tla: the repaired protocol (Resurrect = TRUE) must satisfy Truthful / Once / Tracked / Swept / Terminates; the
+    protocol as found (F19, Resurrect = FALSE) must violate Truthful - if TLC stops finding that counterexample the model no longer
+    explains the finding and the check reports itself broken.  Returns (mc records, broken)."""
+    inst = [("r1n2", (1, 2, 3, 5, 2)), ("r2n1", (2, 1, 3, 5, 2))]
+    if tier != "quick":
+        inst += [("r1n3", (1, 3, 3, 6, 3)), ("r2n1c6", (2, 1, 4, 6, 2))]
+    mc, broken = [], []
+    for tag, (rd, nr, ttl, mx, ns) in inst:
+        for sized in (False, True):
+            for res in (True, False):
+                if not res and (tag != "r1n2"):
+                    continue
+                cfg = os.path.join(work, "er_%s_%d_%d.cfg" % (tag, sized, res))
+                with open(cfg, "w") as f:
+                    f.write(expire_race_cfg(rd, nr, ttl, mx, ns, sized, res))
+                r = vlib.run_tlc(work, "ExpireRace", cfg, workers=4, timeout=900, heap="4g")
+                name = "ExpireRace %s sized=%d resurrect=%d" % (tag, sized, res)
+                mc.append({"instance": name, "distinct": r["distinct"], "generated": r["generated"], "wall_s": round(r["wall"], 1),
+                           "expected": "holds" if res else "violates Truthful"})
+                if res and not vlib.tlc_ok(r):
+                    broken.append(name + ": " + r["out"][-1500:])
+                if not res and "Invariant Truthful is violated" not in r["out"]:
+                    broken.append(name + " (must violate Truthful, F19): " + r["out"][-800:])
+    return mc, broken
+
+
+def read_race_half(prop, tier, mc_out=None):
     """The read-race scenarios only (a read that extends the deadline is parked while the deadline passes and maintenance
     runs), judged by SweepHist.tla; returns (scenarios, [(pred, detail, path)] owned by `prop`, broken)."""
     seed = vlib.seed()
-    scs = [sc for sc in sweep_scenarios(False, seed) if sc["op"].startswith("read.")]
-    if tier == "quick":
-        scs = [sc for sc in scs if sc["sized"] == 1]
+    if prop == "C06":
+        scs = [sc for sc in sweep_scenarios(False, seed) if sc["op"].startswith("gate.")]
+    else:
+        scs = [sc for sc in sweep_scenarios(False, seed) if sc["op"].startswith("read.")]
+        if tier == "quick":
+            scs = [sc for sc in scs if sc["sized"] == 1]
     with vlib.scratch("verif-rr-") as work:
+        if prop == "C06":
+            mc, mbroken = expire_race_models(work, tier)
+            if mc_out is not None:
+                mc_out.extend(mc)
+            if mbroken:
+                return 0, [], mbroken
         obin = vlib.build_test_binary(work, "otter")
         inp, outp, dv, jp = (os.path.join(work, x) for x in ("rr.in.json", "rr.out.ndjson", "rr.dev.json", "rr.judge.ndjson"))
         with open(inp, "w") as f:
@@ -59,10 +112,13 @@ def read_race_half(prop, tier):
         rc, out = vlib.run_test_binary(obin, "TestVerifSweep", {"VERIF_IN": inp, "VERIF_OUT": outp}, timeout=900)
         if rc != 0:
             return 0, [], ["read-race driver failed:\n" + out[-2000:]]
+        gated = revived = 0
         with open(outp) as f, open(jp, "w") as g:
             for line in f:
                 r = json.loads(line)
                 sc = r["sc"]
+                gated += r.get("gated", 0)
+                revived += 1 if (r.get("gated") and r.get("midalive")) else 0
                 r["mustsweep"], r["deadlinepassed"], r["tickns"] = 1, 1, 0
                 r["sc"] = {"ttl": str(sc["ttl"]), "jump": str(sc["jump"]), "later": str(sc["later"]), "op": sc["op"], "sized": sc["sized"],
                            "syncexec": sc["syncexec"], "warm": sc["warm"], "warmlive": 0, "max": sc.get("max", 0)}
@@ -73,6 +129,13 @@ def read_race_half(prop, tier):
             return 0, [], ["SweepHist did not complete:\n" + t["out"][-2500:]]
         with open(dv) as f:
             d = json.load(f)
+    if prop == "C06":
+        vlib.log("gated read races: %d scenarios, sweeper parked at the gate in %d, entry kept alive (revived) in %d" % (d["n"], gated, revived))
+        if mc_out is not None:
+            mc_out.append({"instance": "gated read races on the real cache", "scenarios": d["n"], "sweeper_parked_at_gate": gated, "entry_revived": revived,
+                           "distinct": 0, "generated": 0})
+        if gated == 0:
+            return d["n"], [], ["gated read race: the sweeper never reached the gate ev.beforeDelete (hook missing or the wheel no longer hands the node over): scenario vacuous"]
     viol = []
     for x in d["devs"]:
         if not x["pred"].startswith(prop + "."):
@@ -189,7 +252,7 @@ def run(prop, tier, replay=None):
                     total = sc["jump"] + sc["later"]
                     r["mustsweep"] = 1 if (total - sc["ttl"] > TICK and sc["later"] > TICK) else 0
                     r["deadlinepassed"] = 1 if sc["ttl"] <= total else 0
-                    if sc["op"].startswith("read."):
+                    if sc["op"].startswith(("read.", "gate.")):
                         # the extended deadline is at most (ttl - 1000) + ttl after the write; later = 3 ttl + 5 ticks lies beyond it
                         r["mustsweep"], r["deadlinepassed"] = 1, 1
                     r["sc"] = {"ttl": str(sc["ttl"]), "jump": str(sc["jump"]), "later": str(sc["later"]), "op": sc["op"], "sized": sc["sized"],
@@ -247,6 +310,8 @@ def run(prop, tier, replay=None):
         if recs:
             cov["samples"].append({"race": recs[0][0]})
         for x in d["devs"]:
+            if not x["pred"].startswith(("C13.", "C04.")):
+                continue     # C06.* of the gated read races: reported by C06's check
             cov["predicates_failed"][x["pred"]] = cov["predicates_failed"].get(x["pred"], 0) + 1
             sc = recs[x["rec"] - 1][1]
             path = vlib.save_replay(prop, "race-%s-%d" % (sc["op"], x["rec"]), sc)
